@@ -365,6 +365,33 @@ def check_malformed(acc):
       acc.violation(f"layout:malformed-list-accepted:{label}", dict(kind="malformed", label=label), f"refused, or {want} bits", f"accepted with nbits = {T.nbits}")
 
 
+def check_derived(acc):
+  """a @bitstruct class derived from another one: refused, or it has the inherited fields first (like a dataclass) and packs them"""
+  from pymtl3.datatypes import bitstruct, Bits, Bits8, Bits4, Bits2
+  acc.count("evaluations")
+  try:
+    @bitstruct
+    class DBase:
+      x: Bits8
+      l: [Bits2, Bits2]
+
+    @bitstruct
+    class DDerived(DBase):
+      y: Bits4
+  except Exception:
+    acc.count("derived_refused"); return
+  case = dict(kind="derived")
+  if DDerived.nbits != 16:
+    acc.violation("layout:derived-class-drops-inherited-fields", case, "refused, or 16 bits (x, l, y)", f"nbits = {DDerived.nbits}, fields {list(DDerived.__bitstruct_fields__)}"); return
+  for b in (0, 1, 0xA5C3, 0xFFFF, 0x8001):
+    acc.count("evaluations")
+    v = DDerived.from_bits(Bits(16, b))
+    got = (int(v.x), int(v.l[0]), int(v.l[1]), int(v.y))
+    want = (b >> 8, (b >> 4) & 3, (b >> 6) & 3, b & 15)
+    if got != want or int(v.to_bits()) != b or not (v == DDerived(want[0], [want[1], want[2]], want[3])):
+      acc.violation("layout:derived-class-layout", dict(case, b=b), want, got); return
+
+
 def shards(tier):
   n = len(shapes(tier))
   k = 32
@@ -385,6 +412,7 @@ def run_shard(shard, tier, seed):
       if j % 400 == 0: acc.sample(dict(kind="layout", type=sh[j], width=layout.width(sh[j])))
   elif shard[0] == "malformed":
     check_malformed(acc)
+    check_derived(acc)
   else:
     alias_explore(ALIAS_SHAPES[shard[1]], shard[2], acc)
   return acc
@@ -393,6 +421,9 @@ def run_shard(shard, tier, seed):
 def replay(case):
   from vt.ir import tup
   acc = Acc()
+  if case["kind"] == "derived":
+    check_derived(acc)
+    return [(v["sig"], v["expected"], v["observed"], v["msg"]) for v in acc.violations]
   if case["kind"] == "malformed":
     check_malformed(acc)
     return [(v["sig"], v["expected"], v["observed"], v["msg"]) for v in acc.violations if v["case"]["label"] == case["label"]]
